@@ -123,6 +123,25 @@ func genLogCase(t *rapid.T, o datagen.QueryOpts, formats []string) LogCase {
 			break
 		}
 	}
+	// A typed comparison over a JSON field that is a boolean, an object or an array: it cannot
+	// convert the value, so the record stays and is flagged - it is not "a label that is not there".
+	if s.Format == "json" && rapid.IntRange(0, 5).Draw(t, "typed-over-composite") == 0 {
+		var comp []datagen.Field
+		for _, f := range s.Fields {
+			if f.Type == "bool" || f.Type == "obj" {
+				comp = append(comp, f)
+			}
+		}
+		if len(comp) > 0 {
+			f := comp[rapid.IntRange(0, len(comp)-1).Draw(t, "composite-field")]
+			p := &gen.Pred{Kind: "num", Label: f.Name, Op: rapid.SampledFrom([]string{">", ">=", "<", "<=", "==", "!="}).Draw(t, "composite-op"), Text: "0", Num: 0}
+			if rapid.IntRange(0, 2).Draw(t, "composite-or") == 0 {
+				p = &gen.Pred{Kind: "or", L: p, R: &gen.Pred{Kind: "match", Label: "nosuch", Op: "=", Str: "x"}}
+			}
+			c.Query.Stages = append([]gen.Stage{{Kind: "json"}, {Kind: "labelfilter", Pred: p}}, c.Query.Stages...)
+			datagen.FixAmbiguities(&c.Query)
+		}
+	}
 	// A number comparison over a stream label meets the special floats in that label: NaN fails
 	// every ordered comparison (and ==), the infinities lie beyond every literal.
 	if len(c.Recs) > 0 {
